@@ -474,7 +474,12 @@ class World:
 
     def micro_step(self):
         ex = self.ex
-        for n in self.nodes:
+        order = self.nodes
+        if not self.branching and len(order) > 1:
+            # canonical schedule: serve the nodes round-robin (a fixed priority order would starve the last one)
+            self.rr = (getattr(self, 'rr', -1) + 1) % len(order)
+            order = order[self.rr:] + order[:self.rr]
+        for n in order:
             has_in = bool(n.inbox)
             has_job = n.job_enabled()
             if not has_in and not has_job:
